@@ -66,6 +66,12 @@ tensor_cdefs.cdef(taco_type_header)
 # This library only has definitions, in order to `include` it elsewhere, `set_source` must be called with empty `source` first
 tensor_cdefs.set_source("_main", "")
 
+# Build the backend type of the struct now so that this `FFI` owns it. cffi records on the shared
+# declaration that the struct has been completed, but keeps the completed type alive only in the
+# `FFI` that first asked for it. If that is a kernel's short-lived `FFI` (this one is `include`d
+# there), the completed type dies with it and `tensor_cdefs.new` later gets an opaque struct.
+tensor_cdefs.typeof("taco_tensor_t")
+
 if platform.system() == "Windows":
     # On Windows, standard C functions like free are in msvcrt.dll
     tensor_lib = tensor_cdefs.dlopen("msvcrt.dll")
